@@ -17,7 +17,7 @@ SCALAR_KEYS = {"scal", "deq", "shadowed", "par", "addr", "isz", "off", "bsz", "s
                "baddr", "built", "nev"}
 SEQ_KEYS = {"mods", "bytes", "bbytes", "secext"}
 SET_KEYS = {"kids", "cache", "refs", "tags", "symx", "cfg", "nout", "nin"}
-SET2_KEYS = {"agg", "named", "outs", "ins"}
+SET2_KEYS = {"agg", "named", "mnamed", "outs", "ins"}
 
 
 def _sortkey(x):
@@ -38,6 +38,11 @@ def canon_field(key, val):
 
 def canon_state(st):
     return {k: canon_field(k, v) for k, v in st.items()}
+
+
+class NoBinding(Exception):
+    """the specification offers an operation the harness cannot execute: a machinery failure (exit 2),
+    never a verdict about the code"""
 
 
 class Unprojectable(Exception):
@@ -85,6 +90,9 @@ class Env:
             for n in consts[k]:
                 self.kind[n] = cls
         self.defname = consts.get("Name0", "a")
+        # "Separately constructed nodes never share flags, AuxData maps, attributes or collections" (C04) -- also when
+        # the caller hands every constructor the same (empty) mutable argument: one template object per kind.
+        self.tmpl = {"aux": {}, "flags": set(), "attrs": set(), "bytes": bytearray()}
         for n in sorted(self.kind):
             self._set(n, self._construct(n))
         self.hidden_sym = g.Symbol(name="hidden", uuid=uuidlib.uuid5(NS, "hidden-symbol"))
@@ -139,8 +147,8 @@ class Env:
             s = self.c.get(table, {}).get(e, NONE)
             return self.obj[s] if s != NONE else self.hidden_sym
         if self.c.get("ExprKind", {}).get(e, "ac") == "aa":
-            return self.g.SymAddrAddr(1, 0, sym("ExprSym"), sym("ExprSym2"))
-        return self.g.SymAddrConst(0, sym("ExprSym"))
+            return self.g.SymAddrAddr(1, 0, sym("ExprSym"), sym("ExprSym2"), self.tmpl["attrs"])
+        return self.g.SymAddrConst(0, sym("ExprSym"), self.tmpl["attrs"])
 
     # ---- tokens <-> concrete attribute values -------------------------------------------------
     def label_fields(self, tok):
@@ -199,14 +207,17 @@ class Env:
 
     def _construct(self, n, **kw):
         g, k, u = self.g, self.kind[n], self.uuid(n)
+        t = self.tmpl
+        if any(len(x) for x in t.values()):
+            raise Unprojectable("an argument shared between constructors was modified: %r" % (t,))
         if k == "ir":
-            return g.IR(uuid=u, **kw)
+            return g.IR(uuid=u, aux_data=t["aux"], **kw)
         if k == "mod":
-            return g.Module(name="", uuid=u, **kw)
+            return g.Module(name="", uuid=u, aux_data=t["aux"], **kw)
         if k == "sec":
-            return g.Section(uuid=u, **kw)
+            return g.Section(uuid=u, flags=t["flags"], **kw)
         if k == "biv":
-            return g.ByteInterval(uuid=u, **kw)
+            return g.ByteInterval(uuid=u, contents=t["bytes"], **kw)
         if k == "code":
             return g.CodeBlock(uuid=u, **kw)
         if k == "data":
@@ -290,7 +301,7 @@ class Env:
         self.history.append({k: v for k, v in op.items() if k not in ("res", "alts", "branches", "msg")})
         try:
             r = self._do(op)
-        except Unprojectable:
+        except (Unprojectable, NoBinding):
             raise
         except Exception as e:  # noqa: the class is the observation
             return {"exc": type(e).__name__, "msg": str(e)[:200]}
@@ -310,7 +321,10 @@ class Env:
         from gtirb.util import SetWrapper
         if isinstance(v, SetWrapper) or not isinstance(v, (set, frozenset)):
             return {"notplain": type(v).__name__, "items": sorted(self.nid(x) for x in v)}
-        return sorted(self.nid(x) for x in v)
+        items = sorted(self.nid(x) for x in v)
+        if isinstance(v, set):
+            v.clear()       # a plain value is the caller's: emptying it must not touch the collection (state compared next)
+        return items
 
     def _slice(self, op):
         f = lambda x: None if x == NONEIDX else x  # noqa
@@ -356,12 +370,18 @@ class Env:
         if name == "ctor.interval":
             bi = self.g.ByteInterval(size=op["z"], contents=bytes(op["bs"]))
             return {"size": bi.size, "bytes": list(bi.contents), "isize": bi.initialized_size}
+        if name == "lookup":
+            if self.lookup_hook is None:
+                raise NoBinding("harness has no binding for op 'lookup' here")
+            self.lookup_hook(self, op)
+            return NONE
         if name == "loadfault":
             from . import faults
             return faults.do_loadfault(self, op, self.pending_ir)
-        raise KeyError("harness has no binding for op %r" % name)
+        raise NoBinding("harness has no binding for op %r" % name)
 
     _flipstate = 0
+    lookup_hook = None
 
     def _flip(self):
         self._flipstate += 1
@@ -453,7 +473,9 @@ class Env:
             v = L[self._slice(op)]
             if not isinstance(v, list):
                 return {"notplain": type(v).__name__}
-            return [self.nid(x) for x in v]
+            items = [self.nid(x) for x in v]
+            v.clear()       # the slice is the caller's list
+            return items
         if m == "index":
             return L.index(O[op["m"]])
         if m == "count":
@@ -586,6 +608,8 @@ class Env:
             o.rebase_delta = self.to_i64(t)
         elif f == "at_end":
             o.at_end = t == "T"
+        elif f == "version":
+            o.version = self.to_version(t)
         elif f == "xoffset":
             o.offset = self.to_i64(t)
         elif f == "xscale":
@@ -662,7 +686,7 @@ class Env:
                 return {"exc": "WrongHeader", "msg": data[:8].hex()}
             pm = IR_pb2.IR()
             pm.ParseFromString(data[8:])
-            if pm.version != PROTOBUF_VERSION:
+            if pm.version != self.to_version(op["msg"]["content"].get("version", "CUR")):
                 return {"exc": "WrongVersionField", "msg": pm.version}
             got = protomsg.canon_msg(mapper.canon_from_proto(pm, old_exprs))
             want = protomsg.canon_msg(op["msg"])
@@ -690,6 +714,18 @@ class Env:
                     if eid is None:
                         raise Unprojectable("loaded expression at %s+%d was not saved" % (self.nid(o), k))
                     self._set(eid, e)
+        # expressions that are stored nowhere at the moment keep naming the node ids they were built with:
+        # point them at the loaded symbol objects (the universe's y is the loaded y from here on)
+        loaded = {o.uuid: o for o in self.reach(new_ir)}
+        stored = set(self._expr_ids(new_ir).values())
+        for eid in self._by("expr"):
+            if eid in stored:
+                continue
+            e = self.obj[eid]
+            for attr in ("symbol", "symbol1", "symbol2"):
+                y = getattr(e, attr, None)
+                if y is not None and y.uuid in loaded and loaded[y.uuid] is not y:
+                    setattr(e, attr, loaded[y.uuid])
         self.shadow[irid] = old_ir
         # the pre-load IR stays alive with the same UUIDs (two loads of one file in one process): its own
         # UUID table must keep answering with its own objects whatever happens to the loaded IR
@@ -885,8 +921,22 @@ class Env:
             out[h] = [self.attr_token(int(a)) for a in self.obj[h].attributes]
         return out
 
+    def to_version(self, t):
+        from gtirb.version import PROTOBUF_VERSION
+        return {"CUR": PROTOBUF_VERSION, "NEXT": PROTOBUF_VERSION + 1, "ZERO": 0}[t]
+
+    def version_token(self, v):
+        from gtirb.version import PROTOBUF_VERSION
+        return {PROTOBUF_VERSION: "CUR", PROTOBUF_VERSION + 1: "NEXT", 0: "ZERO"}.get(v, "V%r" % (v,))
+
+    def _p_mnamed(self):
+        return {i: {nm: [self.nid(m) for m in self.obj[i].modules_named(self.to_str(nm))]
+                    for nm in sorted(self.c["ScalDom"]["name"])} for i in self._by("ir")}
+
     def _p_scal(self):
         out = {}
+        for h in self._by("ir"):
+            out[h] = {"version": self.version_token(self.obj[h].version)}
         for h in self._by("mod"):
             o = self.obj[h]
             out[h] = {"name": self.str_token(o.name), "binary_path": self.str_token(o.binary_path),
@@ -916,6 +966,28 @@ class Env:
             a, b = self.obj[i].deep_eq(sh), sh.deep_eq(self.obj[i])
             out[i] = "equal" if (a is True and b is True) else "differ" if (a is False and b is False) else \
                 "ASYMMETRIC(%r,%r)" % (a, b)
+        return out
+
+    def _p_deqn(self):
+        """node.deep_eq(twin) for every attached node that has a twin (same UUID) in the frozen pre-load IR"""
+        out = {}
+        for i in self._by("ir"):
+            out[i] = {}
+            sh = self.shadow.get(i)
+            if sh is None:
+                continue
+            for n, k in self.kind.items():
+                if k in ("ir", "expr"):
+                    continue
+                o = self.obj[n]
+                if o.ir is not self.obj[i]:
+                    continue
+                t = sh.get_by_uuid(o.uuid)
+                if t is None:
+                    continue
+                a, b = o.deep_eq(t), t.deep_eq(o)
+                out[i][n] = "equal" if (a is True and b is True) else "differ" if (a is False and b is False) else \
+                    "ASYMMETRIC(%r,%r)" % (a, b)
         return out
 
     def _p_shadowed(self):
